@@ -27,7 +27,7 @@ import (
 	"github.com/hashicorp/consul/internal/verifharness/hx"
 )
 
-const primaryQueryTime = 25 * time.Millisecond
+const primaryQueryTime = 10 * time.Millisecond
 
 // ---- ID pools: classes of spellings that fold onto ONE store row
 
@@ -856,7 +856,7 @@ func runRounds(run *hx.Run) {
 	e := startEnv(run)
 	defer e.vp.Close()
 	t0 := time.Now()
-	n := run.Scale(150, 1000) // per kind
+	n := run.Scale(150, 800) // per kind
 	for i := 0; i < n*len(allKinds); i++ {
 		r := run.RNG.Fork(1<<40 + uint64(i))
 		k := allKinds[i%len(allKinds)]
@@ -866,10 +866,11 @@ func runRounds(run *hx.Run) {
 	for i := 0; i < run.Scale(3, 12); i++ {
 		e.bulkUpsertRound(run.RNG.Fork(1<<41 + uint64(i)))
 	}
-	for i := 0; i < run.Scale(1, 2); i++ {
+	for i := 0; i < 1; i++ {
 		e.bulkDeleteRound(run.RNG.Fork(1<<42 + uint64(i)))
 	}
 	e.reset(policyOps)
+	runNames(run, e)
 	run.Extra["real_rounds"] = e.rounds
 	run.Extra["real_rounds_seconds"] = int(time.Since(t0).Seconds())
 	run.Extra["seconds_blocked_in_fetch"] = int(e.blocked.Seconds())
